@@ -130,6 +130,13 @@ let handle (s : sexp) : string = match s with
   | L [A "c02"; phis; pre; pim; tol] ->
       let phis = list_of q_of phis and pre = list_of q_of pre and pim = list_of q_of pim in
       "(" ^ sb (check_c02 phis pre pim (q_of tol)) ^ " " ^ so sz (corner_norm_i phis pre pim) ^ ")"
+  | L [A "p2l"; p] ->
+      let p = list_of q_of p in
+      (match p2l_q p with None -> "ERR" | Some l -> "(" ^ sl sq l ^ " " ^ sb (check_p2l p l) ^ ")")
+  | L [A "ptlf"; p] -> so s_lpoly (ptlf_q (list_of q_of p))
+  | L [A "c2p"; k; c] -> sl sq (c2p_q (bool_of k) (list_of q_of c))
+  | L [A "p2c"; k; p] ->
+      let p = list_of q_of p in "(" ^ sl sq (p2c_q (bool_of k) p) ^ " " ^ sb (check_p2c (bool_of k) p) ^ ")"
   | L [A "scale"] -> sz scaleZ
   | _ -> failwith "unknown command"
 
